@@ -285,7 +285,7 @@ static cfg_opt_t *cfg_getopt_secidx(cfg_t *cfg, const char *name,
 			break;
 
 		if (!len)
-			break;
+			return NULL;	/* empty step: the path starts with, or repeats, '=' */
 
 		secname = strndup(name, len);
 		if (!secname)
@@ -348,6 +348,9 @@ static cfg_opt_t *cfg_getopt_secidx(cfg_t *cfg, const char *name,
 	}
 
 	if (!index) {
+		if (!*name)
+			return NULL;	/* the path ended with a section step */
+
 		opt = cfg_getopt_leaf(sec, name);
 
 		if (!opt && !is_set(CFGF_IGNORE_UNKNOWN, cfg->flags) && !is_set(CFGF_KEYSTRVAL, sec->flags))
